@@ -58,7 +58,13 @@ def handle(job):
   where = "uniform run"
   try:
     grads = tfrun.make_grads(shapes, ["ok"] * max(T, T2), seed, scales=job["scales"])
-    r0 = tfrun.Runner(o, shapes, seed)
+    # the Options object of the uniform run is kept: the reallocated optimizer is built from an Options DERIVED
+    # from it (dataclasses.replace), as a second reallocation round or a rank sweep would do
+    import dataclasses
+    from precondition.tearfree import sketchy as SK
+    sk0 = SK.Options(epsilon=o["sk_eps"], rank=base, relative_epsilon=o["sk_rel"], second_moment_decay=o["decay"],
+                     update_freq=o["SF"], add_ggt=o["add_ggt"])
+    r0 = tfrun.Runner(dict(o, _sk_obj=sk0), shapes, seed)
     states = []
     for t in range(T):
       r0.step(grads[t])
@@ -73,7 +79,11 @@ def handle(job):
     res = R.create_redist_dict(None, None, job["rule"], bool(job["avg"]), base, states=use)
     scores = R.score_fn(use, job["rule"], layer_names, bool(job["avg"]))
     where = "Sketchy with memory_alloc"
-    r2 = tfrun.Runner(dict(o, memory_alloc=res), shapes, seed, params=r0.params)
+    # an earlier derivation from the same base with ANOTHER allocation (all ranks 1), initialised and dropped:
+    # what one derived Options object located must not reach the next one
+    alt = {k: [1] * len(v) for k, v in res.items()}
+    tfrun.Runner(dict(o, _sk_obj=dataclasses.replace(sk0, memory_alloc=alt)), shapes, seed, params=r0.params)
+    r2 = tfrun.Runner(dict(o, _sk_obj=dataclasses.replace(sk0, memory_alloc=res)), shapes, seed, params=r0.params)
     proj = r2.project()["params"]
     used = {}
     for i, s in enumerate(shapes):
